@@ -90,8 +90,8 @@ def rule_jerk_loop_starts(ctx, rule):
         if f.get('kind') != 'ForStmt' or not f['inner'][2]:
             continue
         c = render(f['inner'][2]).replace(' ', '')
-        m = re.match(r'^\((\w+)<i\)$', c)
-        if not m:
+        m = re.match(r'^\((\w+)<(i|_?N_active)\)$', c)          # j < i (all earlier particles) or j < N_active (the active ones)
+        if not m or m.group(1) == 'i':          # the outer loops run over i
             continue
         ini = None
         for d in walk(f['inner'][0] or {}):
@@ -100,7 +100,7 @@ def rule_jerk_loop_starts(ctx, rule):
                 ini = render(i0[-1]).replace(' ', '') if i0 else None
         if ini is not None:
             starts.append((ini, line_of(f)))
-    anchor(len(starts) >= 2, 'inner pair loops (j < i) of reb_calculate_and_apply_jerk')
+    anchor(len(starts) >= 2, 'inner pair loops (j < i, j < N_active) of reb_calculate_and_apply_jerk')
     vals = {}
     for s, l in starts:
         vals.setdefault(s, []).append(l)
